@@ -21,6 +21,7 @@ CONSTANTS
   Qs <- One1
   Vs <- D_V1
   As <- One1
+  QScales <- QS1
   Gravs <- K_G1
   DisSets <- NoDis
   TenK <- One0
@@ -30,6 +31,7 @@ CONSTANTS
   TenZero <- OnlyTz
   SpPairs <- D_Sp3
   SpArms <- D_SpArm
+  Sleeps <- BothTz
   StiffPolys <- P00
   DampPolys <- P00
   TenKPolys <- P00
